@@ -53,7 +53,10 @@ func readOps(e *v1x.Env, universe [][]byte, c *fw.Ctx) []fop {
 	}
 	for i := 0; i < 2; i++ {
 		k, v := pickK(), pickV()
-		add("Get", func(t *iavl.MutableTree) (string, error) { x, err := t.Get(k); return fmt.Sprintf("%q/%v", x, x == nil), err })
+		add("Get", func(t *iavl.MutableTree) (string, error) {
+			x, err := t.Get(k)
+			return fmt.Sprintf("%q/%v", x, x == nil), err
+		})
 		add("Has", func(t *iavl.MutableTree) (string, error) { x, err := t.Has(k); return fmt.Sprint(x), err })
 		add("GetWithIndex", func(t *iavl.MutableTree) (string, error) {
 			i, x, err := t.GetWithIndex(k)
